@@ -147,7 +147,17 @@ def run_shard(desc, seed, tier, col):
         for f in run_case(case):
             col.fail(f['sub'], f['kind'], f['msg'], case, sig=f['sig'], obs=f.get('obs'))
 
-    harness.run_given(gen.type_and_value(CFG), body, seed, desc['examples'], col)
+    from hypothesis import strategies as st
+
+    @st.composite
+    def cases(draw):
+        T, v = draw(gen.type_and_value(CFG))
+        d = gen.D(draw, dict(gen.DEFAULT_CFG, **CFG))
+        if d.pct(6):
+            T, v = gen.choice_default_case(d)
+        return T, v
+
+    harness.run_given(cases(), body, seed, desc['examples'], col)
 
 
 FINDINGS = {}
